@@ -99,6 +99,11 @@ def call_shapes(sig, surplus_pos=2, surplus_kw=2):
             po_names = [names[i] for i, k in enumerate(kinds) if k == "po"]
             if po_names:
                 extra_opts = extra_opts + [(po_names[0],), ("x1", po_names[-1])]
+            # ... and so does a keyword spelled like the function's own *args / **kwargs parameter
+            extra_opts = extra_opts + [("vk",)] + ([("va",), ("va", "vk")] if has_va else [])
+            # a keyword named 'self': for a method whose instance parameter is positional-only (def m(self, a, /, **vk))
+            # Python routes it to **vk; for other methods Python rejects the call
+            extra_opts = extra_opts + [("self",)]
         for r in range(len(kwable) + 1):
             for sub in itertools.combinations(kwable, r):
                 for ex in extra_opts:
